@@ -65,6 +65,32 @@ pub fn main<C: Codec>() -> i32 {
             Some(path) => runner::run_replay::<C>(&props, path),
             None => usage(),
         },
+        Some("dump") => {
+            // dump <Cnn> <run> [scenario index]: the generated case of one run as a replay document (for debugging)
+            let id = match args.get(2) {
+                Some(x) => x.as_str(),
+                None => return usage(),
+            };
+            let run: u64 = args.get(3).and_then(|s| s.parse().ok()).unwrap_or(0);
+            let si: usize = args.get(4).and_then(|s| s.parse().ok()).unwrap_or(0);
+            match props.iter().find(|p| p.id == id) {
+                Some(p) => match p.scenarios.get(si) {
+                    Some(sc) => {
+                        println!(
+                            "{{\"property\":\"{}\",\"scenario\":\"{}\",\"seed\":{},\"run\":{},\"case\":{}}}",
+                            p.id,
+                            sc.name(),
+                            seed,
+                            run,
+                            sc.gen_json(seed, run, Tier::Quick)
+                        );
+                        0
+                    }
+                    None => 2,
+                },
+                None => 2,
+            }
+        }
         Some("trace") => {
             let id = match args.get(2) {
                 Some(x) => x.as_str(),
